@@ -2,6 +2,7 @@ CONSTANTS
   Family = "xml"
   Unit = "utf16"
   MaxOps = 3
+  Shape <- NoShape
 SPECIFICATION Spec
 INVARIANTS InvWellFormed InvUniqueTags PrintSchedules
 CHECK_DEADLOCK FALSE
